@@ -50,10 +50,13 @@ func TestMain(m *testing.M) {
 }
 
 // op is one call on the shared object; it returns an error when the concurrent result differs
-// from what the same call returns when executed alone.
+// from what the same call returns when executed alone. cold ops run on an unwarmed twin of the
+// shared object: the sequential pass skips them (see cold in ops_test.go).
 type op struct {
 	name string
 	run  func() error
+	cold bool
+	lead bool // a cold op that every second goroutine starts with (the first reads of one unwarmed object overlap)
 }
 
 // shared returns a slice with spare capacity that all goroutines pass as the same argument.
@@ -85,51 +88,135 @@ type builder struct {
 
 func fixedNow() time.Time { return time.Unix(1700000000, 0) }
 
+// prfLengths draws an output length inside the range of a PRF whose longest output is max bytes
+// (HMAC: digest size, AES-CMAC: 16, HKDF: 255 x digest size) and returns the first length beyond it.
+func prfLengths(rt *rapid.T, max int) (n, tooLong uint32) {
+	switch k := rapid.IntRange(0, 9).Draw(rt, "outlen_kind"); {
+	case k < 6:
+		n = uint32(rapid.IntRange(1, min(16, max)).Draw(rt, "outlen"))
+	case k < 8:
+		n = uint32(rapid.IntRange(1, max).Draw(rt, "outlen"))
+	default:
+		n = uint32(max)
+	}
+	return n, uint32(max) + 1
+}
+
+// jwtInput is one raw token with its validator and the comparison of a verified token with it.
+type jwtInput struct {
+	raw   *jwt.RawJWT
+	val   *jwt.Validator
+	check func(v *jwt.VerifiedJWT, err error) error
+}
+
+// drawJWTInput: tokens of one case differ in issuer (tag), subject and type header.
+func drawJWTInput(rt *rapid.T, tag string) jwtInput {
+	iss := "issuer-" + tag
+	sub := rapid.StringMatching(`[a-z]{0,8}`).Draw(rt, "subject")
+	exp := fixedNow().Add(time.Hour)
+	opts := &jwt.RawJWTOptions{Issuer: &iss, Subject: &sub, ExpiresAt: &exp}
+	vopts := &jwt.ValidatorOpts{ExpectedIssuer: &iss, FixedNow: fixedNow()}
+	var typ *string
+	switch rapid.IntRange(0, 2).Draw(rt, "typ") {
+	case 1:
+		t := "JWT"
+		typ = &t
+	case 2:
+		t := rapid.StringMatching(`[a-z+]{1,8}`).Draw(rt, "typvalue")
+		typ = &t
+	}
+	opts.TypeHeader, vopts.ExpectedTypeHeader = typ, typ
+	in := jwtInput{raw: tk.Must(jwt.NewRawJWT(opts)), val: tk.Must(jwt.NewValidator(vopts))}
+	in.check = func(v *jwt.VerifiedJWT, err error) error {
+		if err != nil {
+			return err
+		}
+		if got, err := v.Issuer(); err != nil || got != iss {
+			return fmt.Errorf("issuer %q, %v", got, err)
+		}
+		if got, err := v.Subject(); err != nil || got != sub {
+			return fmt.Errorf("subject %q, %v", got, err)
+		}
+		if v.HasTypeHeader() != (typ != nil) {
+			return fmt.Errorf("type header present = %v, the token was made with %v", v.HasTypeHeader(), typ != nil)
+		}
+		if typ != nil {
+			if got, err := v.TypeHeader(); err != nil || got != *typ {
+				return fmt.Errorf("type header %q, %v; the token was made with %q", got, err, *typ)
+			}
+		}
+		return nil
+	}
+	return in
+}
+
+// jwtMacOps: wantTok, when not empty, is the token the producer returned for in.raw when called alone.
+func jwtMacOps(producer, consumer jwt.MAC, in jwtInput, tok, wantTok string) []op {
+	return []op{
+		{name: "ComputeMACAndEncode+VerifyMACAndDecode", run: func() error {
+			t, err := producer.ComputeMACAndEncode(in.raw)
+			if err != nil || (wantTok != "" && t != wantTok) {
+				return fmt.Errorf("token %q differs from the sequential result %q: %v", t, wantTok, err)
+			}
+			return in.check(consumer.VerifyMACAndDecode(t, in.val))
+		}},
+		{name: "VerifyMACAndDecode", run: func() error { return in.check(consumer.VerifyMACAndDecode(tok, in.val)) }},
+		{name: "VerifyMACAndDecode-bad", run: func() error {
+			if _, err := consumer.VerifyMACAndDecode(tok[:len(tok)-1], in.val); err == nil {
+				return fmt.Errorf("truncated token accepted")
+			}
+			return nil
+		}},
+	}
+}
+
+func jwtSigOps(s jwt.Signer, v jwt.Verifier, in jwtInput, tok string) []op {
+	return []op{
+		{name: "SignAndEncode+VerifyAndDecode", run: func() error {
+			t, err := s.SignAndEncode(in.raw)
+			if err != nil {
+				return err
+			}
+			return in.check(v.VerifyAndDecode(t, in.val))
+		}},
+		{name: "VerifyAndDecode", run: func() error { return in.check(v.VerifyAndDecode(tok, in.val)) }},
+		{name: "VerifyAndDecode-bad", run: func() error {
+			if _, err := v.VerifyAndDecode(tok[:len(tok)-1], in.val); err == nil {
+				return fmt.Errorf("truncated token accepted")
+			}
+			return nil
+		}},
+	}
+}
+
+// Every builder makes, next to the shared object(s) that the sequential pass uses, an UNWARMED twin
+// from the same key (the keyset written and parsed again, or the key object built again): ops with
+// "~twin" in the name run on it, for the first time inside the concurrent phase. Deterministic
+// results of the twin are compared with what the warmed object returned alone; randomized ones are
+// cross-checked (twin produces / warmed object consumes, and the other way round).
 func builders() []builder {
 	return []builder{
 		{"aead", func(rt *rapid.T) (string, []op) {
-			var a interface {
-				Encrypt(pt, ad []byte) ([]byte, error)
-				Decrypt(ct, ad []byte) ([]byte, error)
-			}
+			var a, a2 tink.AEAD
 			desc := ""
 			if rapid.IntRange(0, 4).Draw(rt, "legacy") == 0 {
-				a, desc = tk.Must(aead.New(legacyHandle(rt, legacykm.AeadURL, 32))), "legacy AEAD adapter"
+				h := legacyHandle(rt, legacykm.AeadURL, 32)
+				a, a2, desc = tk.Must(aead.New(h)), tk.Must(aead.New(twinHandle(h))), "legacy AEAD adapter"
 			} else {
 				c := aeadcase.Draw(rt)
-				a, desc = c.P, c.String()
+				c2 := *c
+				if err := c2.Rebuild(); err != nil {
+					rt.Fatalf("%v: building the primitive a second time: %v", c, err)
+				}
+				a, a2, desc = c.P, c2.P, c.String()
 			}
 			return desc, twice(func(tag string) []op {
-				pt, ad := shared(gen.Bytes(rt, "pt", 300)), shared(gen.Bytes(rt, "ad", 60))
+				pt, ad := input(rt, "pt", 300), shared(gen.Bytes(rt, "ad", 60))
 				wantPT := append([]byte{}, pt...)
-				ct := tk.Must(a.Encrypt(pt, ad))
-				ctS := shared(ct)
-				return []op{
-					{"Encrypt+Decrypt", func() error {
-						c, err := a.Encrypt(pt, ad)
-						if err != nil {
-							return err
-						}
-						p, err := a.Decrypt(c, ad)
-						if err != nil || !bytes.Equal(p, wantPT) {
-							return fmt.Errorf("decryption of a concurrently produced ciphertext: %x, %v", p, err)
-						}
-						return nil
-					}},
-					{"Decrypt", func() error {
-						p, err := a.Decrypt(ctS, ad)
-						if err != nil || !bytes.Equal(p, wantPT) {
-							return fmt.Errorf("Decrypt gave %x, %v", p, err)
-						}
-						return nil
-					}},
-					{"Decrypt-bad", func() error {
-						if _, err := a.Decrypt(ctS[:len(ctS)-1], ad); err == nil {
-							return fmt.Errorf("truncated ciphertext accepted")
-						}
-						return nil
-					}},
-				}
+				ct := shared(tk.Must(a.Encrypt(pt, ad)))
+				ops := aeadOps(a, a, pt, ad, wantPT, ct)
+				ops = append(ops, cold(aeadOps(a2, a, pt, ad, wantPT, ct)[:1], "~twin-encrypts")...)
+				return append(ops, cold(aeadOps(a, a2, pt, ad, wantPT, ct), "~twin")...)
 			})
 		}},
 		{"mac", func(rt *rapid.T) (string, []op) {
@@ -142,20 +229,11 @@ func builders() []builder {
 				kt = withPrefix(kt, prefixTypeDraw(rt))
 				h, desc = tk.Must(keyset.NewHandle(kt)), fmt.Sprintf("MAC %s %v", kt.TypeUrl, kt.OutputPrefixType)
 			}
-			m := tk.Must(mac.New(h))
+			m, m2 := tk.Must(mac.New(h)), tk.Must(mac.New(twinHandle(h)))
 			return desc, twice(func(tag string) []op {
-				msg := shared(gen.Bytes(rt, "msg", 200))
+				msg := input(rt, "msg", 200)
 				want := tk.Must(m.ComputeMAC(msg))
-				return []op{
-					{"ComputeMAC", func() error {
-						t, err := m.ComputeMAC(msg)
-						if err != nil || !bytes.Equal(t, want) {
-							return fmt.Errorf("ComputeMAC gave %x (%v), sequentially %x", t, err, want)
-						}
-						return nil
-					}},
-					{"VerifyMAC", func() error { return m.VerifyMAC(want, msg) }},
-				}
+				return append(macOps(m, msg, want), cold(macOps(m2, msg, want), "~twin")...)
 			})
 		}},
 		{"daead", func(rt *rapid.T) (string, []op) {
@@ -166,27 +244,12 @@ func builders() []builder {
 			} else {
 				h = tk.Must(keyset.NewHandle(withPrefix(daead.AESSIVKeyTemplate(), prefixTypeDraw(rt))))
 			}
-			d := tk.Must(daead.New(h))
+			d, d2 := tk.Must(daead.New(h)), tk.Must(daead.New(twinHandle(h)))
 			return desc, twice(func(tag string) []op {
-				pt, ad := shared(gen.Bytes(rt, "pt", 200)), shared(gen.Bytes(rt, "ad", 60))
+				pt, ad := input(rt, "pt", 200), shared(gen.Bytes(rt, "ad", 60))
 				wantPT := append([]byte{}, pt...)
 				want := tk.Must(d.EncryptDeterministically(pt, ad))
-				return []op{
-					{"EncryptDeterministically", func() error {
-						c, err := d.EncryptDeterministically(pt, ad)
-						if err != nil || !bytes.Equal(c, want) {
-							return fmt.Errorf("deterministic ciphertext differs: %x (%v) vs %x", c, err, want)
-						}
-						return nil
-					}},
-					{"DecryptDeterministically", func() error {
-						p, err := d.DecryptDeterministically(want, ad)
-						if err != nil || !bytes.Equal(p, wantPT) {
-							return fmt.Errorf("decrypt gave %x, %v", p, err)
-						}
-						return nil
-					}},
-				}
+				return append(daeadOps(d, pt, ad, wantPT, want), cold(daeadOps(d2, pt, ad, wantPT, want), "~twin")...)
 			})
 		}},
 		{"signature", func(rt *rapid.T) (string, []op) {
@@ -199,27 +262,15 @@ func builders() []builder {
 				kt = withPrefix(kt, prefixTypeDraw(rt))
 				h, desc = tk.Must(keyset.NewHandle(kt)), fmt.Sprintf("signature %s %v", kt.TypeUrl, kt.OutputPrefixType)
 			}
-			s := tk.Must(signature.NewSigner(h))
-			v := tk.Must(signature.NewVerifier(tk.Must(h.Public())))
+			h2 := twinHandle(h)
+			s, s2 := tk.Must(signature.NewSigner(h)), tk.Must(signature.NewSigner(h2))
+			v, v2 := tk.Must(signature.NewVerifier(tk.Must(h.Public()))), tk.Must(signature.NewVerifier(tk.Must(h2.Public())))
 			return desc, twice(func(tag string) []op {
-				msg := shared(gen.Bytes(rt, "msg", 200))
+				msg := input(rt, "msg", 200)
 				sig := tk.Must(s.Sign(msg))
-				return []op{
-					{"Sign+Verify", func() error {
-						g, err := s.Sign(msg)
-						if err != nil {
-							return err
-						}
-						return v.Verify(g, msg)
-					}},
-					{"Verify", func() error { return v.Verify(sig, msg) }},
-					{"Verify-bad", func() error {
-						if v.Verify(sig[:len(sig)-1], msg) == nil {
-							return fmt.Errorf("truncated signature accepted")
-						}
-						return nil
-					}},
-				}
+				ops := sigOps(s, v, msg, sig)
+				ops = append(ops, cold(sigOps(s2, v, msg, sig)[:1], "~twin-signs")...)
+				return append(ops, cold(sigOps(s, v2, msg, sig), "~twin")...)
 			})
 		}},
 		{"hybrid", func(rt *rapid.T) (string, []op) {
@@ -231,95 +282,44 @@ func builders() []builder {
 				kt := rapid.SampledFrom([]*tinkpb.KeyTemplate{hybrid.DHKEM_X25519_HKDF_SHA256_HKDF_SHA256_AES_128_GCM_Key_Template(), hybrid.DHKEM_P256_HKDF_SHA256_HKDF_SHA256_AES_256_GCM_Raw_Key_Template(), hybrid.ECIESHKDFAES128GCMKeyTemplate(), hybrid.ECIESHKDFAES128CTRHMACSHA256KeyTemplate()}).Draw(rt, "template")
 				h, desc = tk.Must(keyset.NewHandle(kt)), "hybrid "+kt.TypeUrl
 			}
-			e := tk.Must(hybrid.NewHybridEncrypt(tk.Must(h.Public())))
-			d := tk.Must(hybrid.NewHybridDecrypt(h))
+			h2 := twinHandle(h)
+			e, e2 := tk.Must(hybrid.NewHybridEncrypt(tk.Must(h.Public()))), tk.Must(hybrid.NewHybridEncrypt(tk.Must(h2.Public())))
+			d, d2 := tk.Must(hybrid.NewHybridDecrypt(h)), tk.Must(hybrid.NewHybridDecrypt(h2))
 			return desc, twice(func(tag string) []op {
-				pt, info := shared(gen.Bytes(rt, "pt", 200)), shared(gen.Bytes(rt, "info", 40))
+				pt, info := input(rt, "pt", 200), shared(gen.Bytes(rt, "info", 40))
 				wantPT := append([]byte{}, pt...)
 				ct := tk.Must(e.Encrypt(pt, info))
-				return []op{
-					{"Encrypt+Decrypt", func() error {
-						c, err := e.Encrypt(pt, info)
-						if err != nil {
-							return err
-						}
-						p, err := d.Decrypt(c, info)
-						if err != nil || !bytes.Equal(p, wantPT) {
-							return fmt.Errorf("decrypt gave %x, %v", p, err)
-						}
-						return nil
-					}},
-					{"Decrypt", func() error {
-						p, err := d.Decrypt(ct, info)
-						if err != nil || !bytes.Equal(p, wantPT) {
-							return fmt.Errorf("decrypt gave %x, %v", p, err)
-						}
-						return nil
-					}},
-				}
+				ops := hybridOps(e, d, pt, info, wantPT, ct)
+				ops = append(ops, cold(hybridOps(e2, d, pt, info, wantPT, ct)[:1], "~twin-encrypts")...)
+				return append(ops, cold(hybridOps(e, d2, pt, info, wantPT, ct), "~twin")...)
 			})
 		}},
 		{"prf", func(rt *rapid.T) (string, []op) {
-			kt := rapid.SampledFrom([]*tinkpb.KeyTemplate{prf.HMACSHA256PRFKeyTemplate(), prf.HKDFSHA256PRFKeyTemplate(), prf.AESCMACPRFKeyTemplate(), prf.HMACSHA512PRFKeyTemplate()}).Draw(rt, "template")
-			set := tk.Must(prf.NewPRFSet(tk.Must(keyset.NewHandle(kt))))
-			return "PRF " + kt.TypeUrl, twice(func(tag string) []op {
-				in := shared(gen.Bytes(rt, "input", 200))
-				n := uint32(rapid.IntRange(1, 16).Draw(rt, "outlen"))
+			type tmpl struct {
+				kt  *tinkpb.KeyTemplate
+				max int
+			}
+			t := rapid.SampledFrom([]tmpl{{prf.HMACSHA256PRFKeyTemplate(), 32}, {prf.HKDFSHA256PRFKeyTemplate(), 255 * 32}, {prf.AESCMACPRFKeyTemplate(), 16}, {prf.HMACSHA512PRFKeyTemplate(), 64}}).Draw(rt, "template")
+			h := tk.Must(keyset.NewHandle(t.kt))
+			set, set2 := tk.Must(prf.NewPRFSet(h)), tk.Must(prf.NewPRFSet(twinHandle(h)))
+			return "PRF " + t.kt.TypeUrl, twice(func(tag string) []op {
+				in := input(rt, "input", 200)
+				n, tooLong := prfLengths(rt, t.max)
 				want := tk.Must(set.ComputePrimaryPRF(in, n))
-				return []op{{"ComputePrimaryPRF", func() error {
-					o, err := set.ComputePrimaryPRF(in, n)
-					if err != nil || !bytes.Equal(o, want) {
-						return fmt.Errorf("PRF output %x (%v), sequentially %x", o, err, want)
-					}
-					return nil
-				}}}
+				return append(prfOps(set.ComputePrimaryPRF, in, n, want, tooLong), cold(prfOps(set2.ComputePrimaryPRF, in, n, want, tooLong), "~twin")...)
 			})
 		}},
 		{"streaming", func(rt *rapid.T) (string, []op) {
 			kt := rapid.SampledFrom([]*tinkpb.KeyTemplate{streamingaead.AES128GCMHKDF4KBKeyTemplate(), streamingaead.AES128CTRHMACSHA256Segment4KBKeyTemplate(), streamingaead.AES256GCMHKDF4KBKeyTemplate()}).Draw(rt, "template")
-			sa := tk.Must(streamingaead.New(tk.Must(keyset.NewHandle(kt))))
+			h := tk.Must(keyset.NewHandle(kt))
+			sa, sa2 := tk.Must(streamingaead.New(h)), tk.Must(streamingaead.New(twinHandle(h)))
 			return "streaming " + kt.TypeUrl, twice(func(tag string) []op {
-				pt, aad := shared(gen.Bytes(rt, "pt", 9000)), shared(gen.Bytes(rt, "aad", 40))
+				pt, aad := input(rt, "pt", 9000), shared(gen.Bytes(rt, "aad", 40))
 				wantPT := append([]byte{}, pt...)
-				enc := func() ([]byte, error) {
-					var buf bytes.Buffer
-					w, err := sa.NewEncryptingWriter(&buf, aad)
-					if err != nil {
-						return nil, err
-					}
-					if _, err := w.Write(pt); err != nil {
-						return nil, err
-					}
-					if err := w.Close(); err != nil {
-						return nil, err
-					}
-					return buf.Bytes(), nil
-				}
-				dec := func(ct []byte) error {
-					r, err := sa.NewDecryptingReader(bytes.NewReader(ct), aad)
-					if err != nil {
-						return err
-					}
-					var out bytes.Buffer
-					if _, err := out.ReadFrom(r); err != nil {
-						return err
-					}
-					if !bytes.Equal(out.Bytes(), wantPT) {
-						return fmt.Errorf("stream decrypts to different plaintext")
-					}
-					return nil
-				}
-				ct := tk.Must(enc())
-				return []op{
-					{"NewEncryptingWriter+NewDecryptingReader", func() error {
-						c, err := enc()
-						if err != nil {
-							return err
-						}
-						return dec(c)
-					}},
-					{"NewDecryptingReader", func() error { return dec(ct) }},
-				}
+				ct := tk.Must(streamEncrypt(sa, pt, aad))
+				ops := streamOps(sa, sa, pt, aad, wantPT, ct)
+				ops = append(ops, cold(streamOps(sa2, sa, pt, aad, wantPT, ct)[:1], "~twin-encrypts")...)
+				return append(ops, cold(streamOps(sa, sa2, pt, aad, wantPT, ct), "~twin")...)
 			})
 		}},
 		{"jwt", func(rt *rapid.T) (string, []op) {
@@ -330,96 +330,34 @@ func builders() []builder {
 			// change C18d).
 			mi := keys.DrawUsable(rt, "jwtmac", keys.JWTMAC)
 			si := keys.DrawUsable(rt, "jwtsig", keys.JWTSignature)
-			m := tk.Must(jwt.NewMAC(tk.Must(tk.HandleFromKey(mi.Key))))
+			mh := tk.Must(tk.HandleFromKey(mi.Key))
+			m, m2 := tk.Must(jwt.NewMAC(mh)), tk.Must(jwt.NewMAC(twinHandle(mh)))
 			sh := tk.Must(tk.HandleFromKey(si.Key))
-			sg := tk.Must(jwt.NewSigner(sh))
-			vf := tk.Must(jwt.NewVerifier(tk.Must(sh.Public())))
-			callCap = 64
+			sh2 := twinHandle(sh)
+			sg, sg2 := tk.Must(jwt.NewSigner(sh)), tk.Must(jwt.NewSigner(sh2))
+			vf, vf2 := tk.Must(jwt.NewVerifier(tk.Must(sh.Public()))), tk.Must(jwt.NewVerifier(tk.Must(sh2.Public())))
+			capCalls(64)
 			desc := "JWT " + mi.Desc + " + " + si.Desc
 			return desc, twice(func(tag string) []op {
-				iss := "issuer-" + tag
-				sub := rapid.StringMatching(`[a-z]{0,8}`).Draw(rt, "subject")
-				exp := fixedNow().Add(time.Hour)
-				opts := &jwt.RawJWTOptions{Issuer: &iss, Subject: &sub, ExpiresAt: &exp}
-				vopts := &jwt.ValidatorOpts{ExpectedIssuer: &iss, FixedNow: fixedNow()}
-				var typ *string
-				switch rapid.IntRange(0, 2).Draw(rt, "typ") {
-				case 1:
-					t := "JWT"
-					typ = &t
-				case 2:
-					t := rapid.StringMatching(`[a-z+]{1,8}`).Draw(rt, "typvalue")
-					typ = &t
-				}
-				opts.TypeHeader, vopts.ExpectedTypeHeader = typ, typ
-				raw := tk.Must(jwt.NewRawJWT(opts))
-				val := tk.Must(jwt.NewValidator(vopts))
-				check := func(v *jwt.VerifiedJWT, err error) error {
-					if err != nil {
-						return err
-					}
-					if got, err := v.Issuer(); err != nil || got != iss {
-						return fmt.Errorf("issuer %q, %v", got, err)
-					}
-					if got, err := v.Subject(); err != nil || got != sub {
-						return fmt.Errorf("subject %q, %v", got, err)
-					}
-					if v.HasTypeHeader() != (typ != nil) {
-						return fmt.Errorf("type header present = %v, the token was made with %v", v.HasTypeHeader(), typ != nil)
-					}
-					if typ != nil {
-						if got, err := v.TypeHeader(); err != nil || got != *typ {
-							return fmt.Errorf("type header %q, %v; the token was made with %q", got, err, *typ)
-						}
-					}
-					return nil
-				}
-				macTok := tk.Must(m.ComputeMACAndEncode(raw))
-				sigTok := tk.Must(sg.SignAndEncode(raw))
-				return []op{
-					{"ComputeMACAndEncode", func() error {
-						t, err := m.ComputeMACAndEncode(raw)
-						if err != nil || t != macTok {
-							return fmt.Errorf("token %q differs from the sequential result %q: %v", t, macTok, err)
-						}
-						return nil
-					}},
-					{"VerifyMACAndDecode", func() error { return check(m.VerifyMACAndDecode(macTok, val)) }},
-					{"SignAndEncode+VerifyAndDecode", func() error {
-						t, err := sg.SignAndEncode(raw)
-						if err != nil {
-							return err
-						}
-						return check(vf.VerifyAndDecode(t, val))
-					}},
-					{"VerifyAndDecode", func() error { return check(vf.VerifyAndDecode(sigTok, val)) }},
-				}
+				in := drawJWTInput(rt, tag)
+				macTok := tk.Must(m.ComputeMACAndEncode(in.raw))
+				sigTok := tk.Must(sg.SignAndEncode(in.raw))
+				ops := append(jwtMacOps(m, m, in, macTok, macTok), jwtSigOps(sg, vf, in, sigTok)...)
+				ops = append(ops, cold(jwtMacOps(m2, m2, in, macTok, macTok), "~twin")...)
+				ops = append(ops, cold(jwtSigOps(sg2, vf, in, sigTok)[:1], "~twin-signs")...)
+				return append(ops, cold(jwtSigOps(sg, vf2, in, sigTok), "~twin")...)
 			})
 		}},
 		{"derive", func(rt *rapid.T) (string, []op) {
+			// no failing op: every salt is a valid DeriveKeyset input
 			derived := rapid.SampledFrom([]*tinkpb.KeyTemplate{aead.AES128GCMKeyTemplate(), mac.HMACSHA256Tag128KeyTemplate(), signature.ED25519KeyTemplate(), daead.AESSIVKeyTemplate()}).Draw(rt, "derived")
 			kt := tk.Must(keyderivation.CreatePRFBasedKeyTemplate(prf.HKDFSHA256PRFKeyTemplate(), derived))
-			d := tk.Must(keyderivation.New(tk.Must(keyset.NewHandle(kt))))
+			h := tk.Must(keyset.NewHandle(kt))
+			d, d2 := tk.Must(keyderivation.New(h)), tk.Must(keyderivation.New(twinHandle(h)))
 			return "DeriveKeyset -> " + derived.TypeUrl, twice(func(tag string) []op {
-				salt := shared(gen.Bytes(rt, "salt", 40))
-				ser := func(h *keyset.Handle) []byte {
-					var buf bytes.Buffer
-					if err := insecurecleartextkeyset.Write(h, keyset.NewBinaryWriter(&buf)); err != nil {
-						panic(err)
-					}
-					return buf.Bytes()
-				}
-				want := ser(tk.Must(d.DeriveKeyset(salt)))
-				return []op{{"DeriveKeyset", func() error {
-					h, err := d.DeriveKeyset(salt)
-					if err != nil {
-						return err
-					}
-					if !bytes.Equal(ser(h), want) {
-						return fmt.Errorf("derived keyset differs from the sequential result")
-					}
-					return nil
-				}}}
+				salt := input(rt, "salt", 40)
+				want := serializeHandle(tk.Must(d.DeriveKeyset(salt)))
+				return append(deriveOps(d, salt, want), cold(deriveOps(d2, salt, want), "~twin")...)
 			})
 		}},
 		{"registry", func(rt *rapid.T) (string, []op) {
@@ -435,7 +373,7 @@ func builders() []builder {
 			params := k.Parameters()
 			wantTmpl := tk.Must(proto.MarshalOptions{Deterministic: true}.Marshal(tk.Must(protoserialization.SerializeParameters(params))))
 			return "registry/serialization lookups for " + c.Type, []op{
-				{"SerializeKey+ParseKey", func() error {
+				{name: "SerializeKey+ParseKey", run: func() error {
 					s2, err := protoserialization.SerializeKey(k)
 					if err != nil {
 						return err
@@ -450,7 +388,7 @@ func builders() []builder {
 					}
 					return nil
 				}},
-				{"SerializeParameters+ParseParameters", func() error {
+				{name: "SerializeParameters+ParseParameters", run: func() error {
 					kt, err := protoserialization.SerializeParameters(params)
 					if err != nil {
 						return err
@@ -465,7 +403,7 @@ func builders() []builder {
 					}
 					return nil
 				}},
-				{"registry.GetKeyManager+Primitive", func() error {
+				{name: "registry.GetKeyManager+Primitive", run: func() error {
 					km, err := registry.GetKeyManager(url)
 					if err != nil {
 						return err
@@ -491,14 +429,14 @@ func builders() []builder {
 					}
 					return nil
 				}},
-				{"registry.NewKeyData", func() error {
+				{name: "registry.NewKeyData", run: func() error {
 					kd, err := registry.NewKeyData(aead.AES128GCMKeyTemplate())
 					if err != nil || len(kd.GetValue()) == 0 {
 						return fmt.Errorf("NewKeyData: %v", err)
 					}
 					return nil
 				}},
-				{"primitiveregistry.Primitive", func() error {
+				{name: "primitiveregistry.Primitive", run: func() error {
 					_, err := primitiveregistry.Primitive(k)
 					return err
 				}},
@@ -512,156 +450,10 @@ func builders() []builder {
 				rt.Skip("SLH-DSA s sets are too slow under the race detector")
 			}
 			if c == keys.Signature || c == keys.Hybrid {
-				callCap = 48
+				capCalls(48)
 			}
 			h := tk.Must(tk.HandleFromKey(info.Key))
-			desc := "all-types: " + info.Desc
-			// the primitive(s) are created once and shared by both input sets
-			prims := map[string]any{}
-			once := func(name string, mk func() any) any {
-				if _, ok := prims[name]; !ok {
-					prims[name] = mk()
-				}
-				return prims[name]
-			}
-			return desc, twice(func(tag string) []op {
-				x, y := shared(gen.Bytes(rt, "x", 200)), shared(gen.Bytes(rt, "y", 40))
-				wantX := append([]byte{}, x...)
-				switch c {
-				case keys.AEAD:
-					a := once("aead", func() any { return tk.Must(aead.New(h)) }).(tink.AEAD)
-					ct := tk.Must(a.Encrypt(x, y))
-					return []op{{"Encrypt+Decrypt", func() error {
-						c2, err := a.Encrypt(x, y)
-						if err != nil {
-							return err
-						}
-						p, err := a.Decrypt(c2, y)
-						if err != nil || !bytes.Equal(p, wantX) {
-							return fmt.Errorf("decrypt: %x, %v", p, err)
-						}
-						return nil
-					}}, {"Decrypt", func() error {
-						p, err := a.Decrypt(ct, y)
-						if err != nil || !bytes.Equal(p, wantX) {
-							return fmt.Errorf("decrypt: %x, %v", p, err)
-						}
-						return nil
-					}}}
-				case keys.DAEAD:
-					d := once("daead", func() any { return tk.Must(daead.New(h)) }).(tink.DeterministicAEAD)
-					want := tk.Must(d.EncryptDeterministically(x, y))
-					return []op{{"EncryptDeterministically", func() error {
-						c2, err := d.EncryptDeterministically(x, y)
-						if err != nil || !bytes.Equal(c2, want) {
-							return fmt.Errorf("ciphertext differs: %v", err)
-						}
-						return nil
-					}}, {"DecryptDeterministically", func() error {
-						p, err := d.DecryptDeterministically(want, y)
-						if err != nil || !bytes.Equal(p, wantX) {
-							return fmt.Errorf("decrypt: %v", err)
-						}
-						return nil
-					}}}
-				case keys.MAC:
-					m := once("mac", func() any { return tk.Must(mac.New(h)) }).(tink.MAC)
-					want := tk.Must(m.ComputeMAC(x))
-					return []op{{"ComputeMAC", func() error {
-						t2, err := m.ComputeMAC(x)
-						if err != nil || !bytes.Equal(t2, want) {
-							return fmt.Errorf("tag differs: %v", err)
-						}
-						return nil
-					}}, {"VerifyMAC", func() error { return m.VerifyMAC(want, x) }}}
-				case keys.PRF:
-					s := once("prf", func() any { return tk.Must(prf.NewPRFSet(h)) }).(*prf.Set)
-					want := tk.Must(s.ComputePrimaryPRF(x, 16))
-					return []op{{"ComputePrimaryPRF", func() error {
-						o, err := s.ComputePrimaryPRF(x, 16)
-						if err != nil || !bytes.Equal(o, want) {
-							return fmt.Errorf("output differs: %v", err)
-						}
-						return nil
-					}}}
-				case keys.Signature:
-					s := once("signer", func() any { return tk.Must(signature.NewSigner(h)) }).(tink.Signer)
-					v := once("verifier", func() any { return tk.Must(signature.NewVerifier(tk.Must(h.Public()))) }).(tink.Verifier)
-					sig := tk.Must(s.Sign(x))
-					return []op{{"Sign+Verify", func() error {
-						g, err := s.Sign(x)
-						if err != nil {
-							return err
-						}
-						return v.Verify(g, x)
-					}}, {"Verify", func() error { return v.Verify(sig, x) }}}
-				case keys.Hybrid:
-					e := once("henc", func() any { return tk.Must(hybrid.NewHybridEncrypt(tk.Must(h.Public()))) }).(tink.HybridEncrypt)
-					d := once("hdec", func() any { return tk.Must(hybrid.NewHybridDecrypt(h)) }).(tink.HybridDecrypt)
-					ct := tk.Must(e.Encrypt(x, y))
-					return []op{{"Encrypt+Decrypt", func() error {
-						c2, err := e.Encrypt(x, y)
-						if err != nil {
-							return err
-						}
-						p, err := d.Decrypt(c2, y)
-						if err != nil || !bytes.Equal(p, wantX) {
-							return fmt.Errorf("decrypt: %v", err)
-						}
-						return nil
-					}}, {"Decrypt", func() error {
-						p, err := d.Decrypt(ct, y)
-						if err != nil || !bytes.Equal(p, wantX) {
-							return fmt.Errorf("decrypt: %v", err)
-						}
-						return nil
-					}}}
-				case keys.Streaming:
-					sa := once("stream", func() any { return tk.Must(streamingaead.New(h)) }).(tink.StreamingAEAD)
-					return []op{{"NewEncryptingWriter+NewDecryptingReader", func() error {
-						var buf bytes.Buffer
-						w, err := sa.NewEncryptingWriter(&buf, y)
-						if err != nil {
-							return err
-						}
-						if _, err := w.Write(x); err != nil {
-							return err
-						}
-						if err := w.Close(); err != nil {
-							return err
-						}
-						r, err := sa.NewDecryptingReader(bytes.NewReader(buf.Bytes()), y)
-						if err != nil {
-							return err
-						}
-						var out bytes.Buffer
-						if _, err := out.ReadFrom(r); err != nil || !bytes.Equal(out.Bytes(), wantX) {
-							return fmt.Errorf("stream round trip: %v", err)
-						}
-						return nil
-					}}}
-				default: // Deriver
-					d := once("deriver", func() any { return tk.Must(keyderivation.New(h)) }).(keyderivation.KeysetDeriver)
-					ser := func(hh *keyset.Handle) []byte {
-						var buf bytes.Buffer
-						if err := insecurecleartextkeyset.Write(hh, keyset.NewBinaryWriter(&buf)); err != nil {
-							panic(err)
-						}
-						return buf.Bytes()
-					}
-					want := ser(tk.Must(d.DeriveKeyset(x)))
-					return []op{{"DeriveKeyset", func() error {
-						hh, err := d.DeriveKeyset(x)
-						if err != nil {
-							return err
-						}
-						if !bytes.Equal(ser(hh), want) {
-							return fmt.Errorf("derived keyset differs")
-						}
-						return nil
-					}}}
-				}
-			})
+			return "all-types: " + info.Desc, keyOps(rt, c, info, h, twinHandle(h))
 		}},
 		{"handle", func(rt *rapid.T) (string, []op) {
 			m := keyset.NewManager()
@@ -682,72 +474,159 @@ func builders() []builder {
 			str := h.String()
 			pubInfo := tk.Must(h.Public()).KeysetInfo().String()
 			msg := []byte("message")
-			return fmt.Sprintf("handle with %d signature keys", n), []op{
-				{"KeysetInfo/String/Len", func() error {
-					if h.KeysetInfo().String() != info || h.String() != str || h.Len() != n {
-						return fmt.Errorf("handle reads differ")
-					}
-					return nil
-				}},
-				{"Entry/Primary", func() error {
-					p, err := h.Primary()
-					if err != nil || p.KeyID() != first {
-						return fmt.Errorf("Primary: %v", err)
-					}
-					for i := 0; i < n; i++ {
-						e, err := h.Entry(i)
-						if err != nil || e.Key() == nil {
-							return fmt.Errorf("Entry(%d): %v", i, err)
+			reads := func(h *keyset.Handle) []op {
+				return []op{
+					{name: "KeysetInfo/String/Len", run: func() error {
+						if h.KeysetInfo().String() != info || h.String() != str || h.Len() != n {
+							return fmt.Errorf("handle reads differ")
 						}
-						if _, ok := e.Key().IDRequirement(); !ok && false {
-							return nil
+						return nil
+					}},
+					{name: "Entry/Primary", run: func() error {
+						p, err := h.Primary()
+						if err != nil || p.KeyID() != first {
+							return fmt.Errorf("Primary: %v", err)
 						}
-					}
-					return nil
-				}},
-				{"Public", func() error {
-					p, err := h.Public()
-					if err != nil || p.KeysetInfo().String() != pubInfo {
-						return fmt.Errorf("Public(): %v", err)
-					}
-					return nil
-				}},
-				{"NewSigner+NewVerifier", func() error {
-					s, err := signature.NewSigner(h)
-					if err != nil {
-						return err
-					}
-					p, err := h.Public()
-					if err != nil {
-						return err
-					}
-					v, err := signature.NewVerifier(p)
-					if err != nil {
-						return err
-					}
-					sig, err := s.Sign(msg)
-					if err != nil {
-						return err
-					}
-					return v.Verify(sig, msg)
-				}},
-				{"serialize", func() error {
-					var buf bytes.Buffer
-					if err := insecurecleartextkeyset.Write(h, keyset.NewBinaryWriter(&buf)); err != nil {
-						return err
-					}
-					h2, err := insecurecleartextkeyset.Read(keyset.NewBinaryReader(&buf))
-					if err != nil || h2.KeysetInfo().String() != info {
-						return fmt.Errorf("re-read handle differs: %v", err)
-					}
-					return nil
-				}},
-				{"NewHandle(template)", func() error {
-					_, err := keyset.NewHandle(signature.ED25519KeyTemplate())
-					return err
-				}},
+						for i := 0; i < n; i++ {
+							e, err := h.Entry(i)
+							if err != nil || e.Key() == nil {
+								return fmt.Errorf("Entry(%d): %v", i, err)
+							}
+						}
+						return nil
+					}},
+					{name: "Public", run: func() error {
+						p, err := h.Public()
+						if err != nil || p.KeysetInfo().String() != pubInfo {
+							return fmt.Errorf("Public(): %v", err)
+						}
+						return nil
+					}},
+					{name: "NewSigner+NewVerifier", run: func() error {
+						s, err := signature.NewSigner(h)
+						if err != nil {
+							return err
+						}
+						p, err := h.Public()
+						if err != nil {
+							return err
+						}
+						v, err := signature.NewVerifier(p)
+						if err != nil {
+							return err
+						}
+						sig, err := s.Sign(msg)
+						if err != nil {
+							return err
+						}
+						return v.Verify(sig, msg)
+					}},
+					{name: "serialize", run: func() error {
+						var buf bytes.Buffer
+						if err := insecurecleartextkeyset.Write(h, keyset.NewBinaryWriter(&buf)); err != nil {
+							return err
+						}
+						h2, err := insecurecleartextkeyset.Read(keyset.NewBinaryReader(&buf))
+						if err != nil || h2.KeysetInfo().String() != info {
+							return fmt.Errorf("re-read handle differs: %v", err)
+						}
+						return nil
+					}},
+				}
 			}
+			ops := append(reads(h), op{name: "NewHandle(template)", run: func() error {
+				_, err := keyset.NewHandle(signature.ED25519KeyTemplate())
+				return err
+			}})
+			// the same keyset parsed again: a handle nobody has read from before the concurrent phase
+			return fmt.Sprintf("handle with %d signature keys", n), append(ops, cold(reads(twinHandle(h)), "~twin")...)
 		}},
+	}
+}
+
+// keyOps builds the ops of one key (any type of the key generator) through its class factory: the
+// primitives over h are shared and warmed, the ones over twin are first used inside the concurrent
+// phase. Shared by "alltypes" and "paramsets".
+func keyOps(rt *rapid.T, c keys.Class, info *keys.Info, h, twin *keyset.Handle) []op {
+	switch c {
+	case keys.AEAD:
+		a, a2 := tk.Must(aead.New(h)), tk.Must(aead.New(twin))
+		return twice(func(tag string) []op {
+			x, y := input(rt, "x", 200), shared(gen.Bytes(rt, "y", 40))
+			wantX := append([]byte{}, x...)
+			ct := tk.Must(a.Encrypt(x, y))
+			ops := aeadOps(a, a, x, y, wantX, ct)
+			ops = append(ops, cold(aeadOps(a2, a, x, y, wantX, ct)[:1], "~twin-encrypts")...)
+			return append(ops, cold(aeadOps(a, a2, x, y, wantX, ct), "~twin")...)
+		})
+	case keys.DAEAD:
+		d, d2 := tk.Must(daead.New(h)), tk.Must(daead.New(twin))
+		return twice(func(tag string) []op {
+			x, y := input(rt, "x", 200), shared(gen.Bytes(rt, "y", 40))
+			wantX := append([]byte{}, x...)
+			want := tk.Must(d.EncryptDeterministically(x, y))
+			return append(daeadOps(d, x, y, wantX, want), cold(daeadOps(d2, x, y, wantX, want), "~twin")...)
+		})
+	case keys.MAC:
+		m, m2 := tk.Must(mac.New(h)), tk.Must(mac.New(twin))
+		return twice(func(tag string) []op {
+			x := input(rt, "x", 200)
+			want := tk.Must(m.ComputeMAC(x))
+			return append(macOps(m, x, want), cold(macOps(m2, x, want), "~twin")...)
+		})
+	case keys.PRF:
+		s, s2 := tk.Must(prf.NewPRFSet(h)), tk.Must(prf.NewPRFSet(twin))
+		max := 16 // AesCmacPrf
+		if hash, ok := info.Fields["hash"].(string); ok {
+			max = map[string]int{"SHA1": 20, "SHA224": 28, "SHA256": 32, "SHA384": 48, "SHA512": 64}[hash]
+			if info.Type == "HkdfPrf" {
+				max *= 255
+			}
+		}
+		return twice(func(tag string) []op {
+			x := input(rt, "x", 200)
+			n, tooLong := prfLengths(rt, max)
+			want := tk.Must(s.ComputePrimaryPRF(x, n))
+			return append(prfOps(s.ComputePrimaryPRF, x, n, want, tooLong), cold(prfOps(s2.ComputePrimaryPRF, x, n, want, tooLong), "~twin")...)
+		})
+	case keys.Signature:
+		s, s2 := tk.Must(signature.NewSigner(h)), tk.Must(signature.NewSigner(twin))
+		v, v2 := tk.Must(signature.NewVerifier(tk.Must(h.Public()))), tk.Must(signature.NewVerifier(tk.Must(twin.Public())))
+		return twice(func(tag string) []op {
+			x := input(rt, "x", 200)
+			sig := tk.Must(s.Sign(x))
+			ops := sigOps(s, v, x, sig)
+			ops = append(ops, cold(sigOps(s2, v, x, sig)[:1], "~twin-signs")...)
+			return append(ops, cold(sigOps(s, v2, x, sig), "~twin")...)
+		})
+	case keys.Hybrid:
+		e, e2 := tk.Must(hybrid.NewHybridEncrypt(tk.Must(h.Public()))), tk.Must(hybrid.NewHybridEncrypt(tk.Must(twin.Public())))
+		d, d2 := tk.Must(hybrid.NewHybridDecrypt(h)), tk.Must(hybrid.NewHybridDecrypt(twin))
+		return twice(func(tag string) []op {
+			x, y := input(rt, "x", 200), shared(gen.Bytes(rt, "y", 40))
+			wantX := append([]byte{}, x...)
+			ct := tk.Must(e.Encrypt(x, y))
+			ops := hybridOps(e, d, x, y, wantX, ct)
+			ops = append(ops, cold(hybridOps(e2, d, x, y, wantX, ct)[:1], "~twin-encrypts")...)
+			return append(ops, cold(hybridOps(e, d2, x, y, wantX, ct), "~twin")...)
+		})
+	case keys.Streaming:
+		sa, sa2 := tk.Must(streamingaead.New(h)), tk.Must(streamingaead.New(twin))
+		return twice(func(tag string) []op {
+			x, y := input(rt, "x", 200), shared(gen.Bytes(rt, "y", 40))
+			wantX := append([]byte{}, x...)
+			ct := tk.Must(streamEncrypt(sa, x, y))
+			ops := streamOps(sa, sa, x, y, wantX, ct)
+			ops = append(ops, cold(streamOps(sa2, sa, x, y, wantX, ct)[:1], "~twin-encrypts")...)
+			return append(ops, cold(streamOps(sa, sa2, x, y, wantX, ct), "~twin")...)
+		})
+	default: // Deriver: no failing op (every salt is valid)
+		d, d2 := tk.Must(keyderivation.New(h)), tk.Must(keyderivation.New(twin))
+		return twice(func(tag string) []op {
+			x := input(rt, "x", 200)
+			want := serializeHandle(tk.Must(d.DeriveKeyset(x)))
+			return append(deriveOps(d, x, want), cold(deriveOps(d2, x, want), "~twin")...)
+		})
 	}
 }
 
@@ -780,7 +659,14 @@ func logConfig(cfg map[string]any) {
 }
 
 func TestConcurrentUse(t *testing.T) {
-	bs := append(builders(), paramSetsBuilder())
+	// in the quick tier paramsets is listed twice: its sets are equally likely, and the ECDSA / ECIES / RSA sets added
+	// later must not thin out the SLH-DSA / ML-DSA / composite / HPKE sets (seeded change C16c)
+	// (accessors and multikey, the cheapest builders, also twice: one key type out of 29, one class out of 9 per case)
+	bs := append(builders(), paramSetsBuilder(), multiKeyBuilder(), accessorsBuilder(), accessorsBuilder(), multiKeyBuilder())
+	if evid.Tier() != "thorough" {
+		// (not in the thorough tier: its budget reaches every set often enough, and the slow SLH-DSA 's' sets dominate its cost)
+		bs = append(bs, paramSetsBuilder())
+	}
 	// "pair": two independently drawn primitives (any two classes, or two keys of one class) are
 	// used at once, so that state shared between *different* keys or primitives - package-level
 	// caches, pooled buffers - is exercised with different contents in flight (after seeded
@@ -789,23 +675,27 @@ func TestConcurrentUse(t *testing.T) {
 	bs = append(bs, builder{"pair", func(rt *rapid.T) (string, []op) {
 		b1 := rapid.SampledFrom(single).Draw(rt, "first")
 		d1, o1 := b1.build(rt)
-		cap1 := callCap
-		callCap = 0
 		b2 := rapid.SampledFrom(single).Draw(rt, "second")
-		d2, o2 := b2.build(rt)
-		if cap1 > 0 && (callCap == 0 || cap1 < callCap) {
-			callCap = cap1
-		}
-		for i := range o2 {
-			o2[i].name += "@2"
-		}
-		return b1.class + " {" + d1 + "} with " + b2.class + " {" + d2 + "}", append(o1, o2...)
+		d2, o2 := b2.build(rt) // callCap: the smaller of the two builders' caps (capCalls only lowers it)
+		return b1.class + " {" + d1 + "} with " + b2.class + " {" + d2 + "}", append(o1, renamed(o2, "@2")...)
 	}})
+	// developer aid (never set by the registered checks): VERIF_C18_CLASS=<class>[,<class>] restricts the draw
+	if only := os.Getenv("VERIF_C18_CLASS"); only != "" {
+		var sel []builder
+		for _, b := range bs {
+			if strings.Contains(","+only+",", ","+b.class+",") {
+				sel = append(sel, b)
+			}
+		}
+		bs = sel
+	}
 	rapid.Check(t, func(rt *rapid.T) {
 		entropy := rapid.Uint64().Draw(rt, "entropy")
 		detrand.Seed(entropy)
 		b := rapid.SampledFrom(bs).Draw(rt, "class")
 		callCap = 0
+		// input-size class of the case: messages / plaintexts of <= 300 bytes (boundary-biased), 1-4 KiB or 64 KiB
+		sizeClass = rapid.SampledFrom([]int{0, 0, 0, 0, 0, 0, 1, 1, 1, 2}).Draw(rt, "sizeclass")
 		desc, ops := b.build(rt)
 		g := rapid.IntRange(2, 16).Draw(rt, "goroutines")
 		k := rapid.IntRange(4, 40).Draw(rt, "calls")
@@ -814,10 +704,19 @@ func TestConcurrentUse(t *testing.T) {
 		}
 		yield := rapid.IntRange(0, 3).Draw(rt, "yield_every")
 		sched := rapid.SliceOfN(rapid.IntRange(0, len(ops)-1), 8, 32).Draw(rt, "schedule")
-		cfg := map[string]any{"class": b.class, "primitive": desc, "goroutines": g, "calls_each": k, "yield_every": yield, "schedule": sched, "entropy": entropy}
+		cfg := map[string]any{"class": b.class, "primitive": desc, "goroutines": g, "calls_each": k, "yield_every": yield, "schedule": sched, "entropy": entropy, "size_class": sizeClass}
 		logConfig(cfg)
-		// sequential pass: every op must hold when executed alone
-		for _, o := range ops {
+		// sequential pass: every op on the shared (warmed) objects must hold when executed alone; the
+		// ops on the unwarmed twins are left out, their first execution is concurrent
+		var coldOps, leadOps []int
+		for i, o := range ops {
+			if o.cold {
+				coldOps = append(coldOps, i)
+				if o.lead {
+					leadOps = append(leadOps, i)
+				}
+				continue
+			}
 			if err := o.run(); err != nil {
 				rt.Fatalf("%s: %s fails sequentially: %v", desc, o.name, err)
 			}
@@ -832,6 +731,13 @@ func TestConcurrentUse(t *testing.T) {
 				<-start
 				for i := 0; i < k; i++ {
 					o := ops[sched[(gi*7+i)%len(sched)]]
+					if i == 0 && len(coldOps) > 0 {
+						// every goroutine starts on an unwarmed twin: the twins' first calls overlap
+						o = ops[coldOps[(sched[gi%len(sched)]+gi)%len(coldOps)]]
+						if gi%2 == 0 && len(leadOps) > 0 {
+							o = ops[leadOps[(gi/2)%len(leadOps)]]
+						}
+					}
 					if err := o.run(); err != nil {
 						errs <- fmt.Sprintf("goroutine %d call %d %s: %v", gi, i, o.name, err)
 						return
@@ -853,7 +759,7 @@ func TestConcurrentUse(t *testing.T) {
 			rt.Fatalf("%s: concurrent calls returned results that differ from sequential execution (G=%d, K=%d):\n  %s", desc, g, k, strings.Join(all, "\n  "))
 		}
 		evid.Add("concurrent_calls", int64(g*k))
-		evid.Case(fmt.Sprintf("%s/G=%s", b.class, bucket(g)), true, evid.NewH().S(desc).I(int64(g)).I(int64(k)).I(int64(entropy)).Sum(), func() any { return cfg })
+		evid.Case(fmt.Sprintf("%s/G=%s/size=%d", b.class, bucket(g), sizeClass), true, evid.NewH().S(desc).I(int64(g)).I(int64(k)).I(int64(entropy)).Sum(), func() any { return cfg })
 	})
 }
 
